@@ -781,6 +781,20 @@ func check(c Case) (vk.Outcome, error) {
 		if len(ins) != n+2 || ins[at] != (el{9, 9}) || ins[at+1] != (el{8, 8}) {
 			return out, viol(c, "Insert at %d = %v", at, ins)
 		}
+		// the inserted values may be a part of the slice itself (moving a block), with and without room to grow in place
+		if n >= 2 {
+			from := ((c.B % n) + n) % n
+			to := from + 1 + ((c.A/7)%(n-from)+(n-from))%(n-from)
+			for _, spare := range []int{0, n + 4} {
+				src := make([]el, n, n+spare)
+				copy(src, in)
+				want := append(append(append([]el{}, in[:at]...), in[from:to]...), in[at:]...)
+				got := xslices.Insert(src, at, src[from:to]...)
+				if !reflect.DeepEqual(append([]el{}, got...), want) {
+					return out, viol(c, "Insert(s, %d, s[%d:%d]...) with %d spare capacity = %v, want %v", at, from, to, spare, got, want)
+				}
+			}
+		}
 		rm := xslices.Remove(append([]el{}, ins...), at, 2)
 		if !reflect.DeepEqual(append([]el{}, rm...), append([]el{}, in...)) {
 			return out, viol(c, "Remove(Insert(x)) = %v want %v", rm, in)
@@ -942,6 +956,14 @@ func checkWithStack(c Case) error {
 	if msg, inner := w.Error(), e.Error(); len(msg) < len(inner) || msg[:len(inner)] != inner {
 		return viol(c, "message %q does not start with the inner message %q", msg, inner)
 	}
+	// the wrapper shows the wrapped error as it is now, not as it was when it was wrapped or first printed
+	mut := &mutableErr{msg: "first"}
+	wm := xerrors.WithStack(mut)
+	m1 := wm.Error()
+	mut.msg = "second"
+	if m2 := wm.Error(); !strings.HasPrefix(m1, "first") || !strings.HasPrefix(m2, "second") {
+		return viol(c, "WithStack over an error whose message changed from \"first\" to \"second\": Error() began with %q, then with %q", firstLine(m1), firstLine(m2))
+	}
 	// idempotent: wrapping an error that already carries a stack returns it unchanged
 	w2 := xerrors.WithStack(w)
 	if !sameErr(w2, w) {
@@ -953,6 +975,18 @@ func checkWithStack(c Case) error {
 		}
 	}
 	return nil
+}
+
+// mutableErr is an error whose message can change.
+type mutableErr struct{ msg string }
+
+func (e *mutableErr) Error() string { return e.msg }
+
+func firstLine(s string) string {
+	if i := strings.IndexByte(s, '\n'); i >= 0 {
+		return s[:i]
+	}
+	return s
 }
 
 // partsErr is an error whose dynamic type == cannot compare.
